@@ -195,6 +195,23 @@ pub fn check_forward(rec: &Rec, garbage: &[u8], ctx: &mut Ctx) -> Result<(), Fai
             }
         }
     }
+    // IpHeaders has two more strict slice decoders (version-specific copies of the same logic)
+    if let (Kind::IpHdrs, Val::IpHdrs(h, _)) = (&k, val) {
+        let (entry, r) = match h {
+            etherparse::IpHeaders::Ipv4(..) => ("from_ipv4_slice", catch(|| etherparse::IpHeaders::from_ipv4_slice(&plain).map(|(h, p)| (Val::IpHdrs(h, p.ip_number.0), p.payload.to_vec())).map_err(|e| format!("{:?}", e)))),
+            etherparse::IpHeaders::Ipv6(..) => ("from_ipv6_slice", catch(|| etherparse::IpHeaders::from_ipv6_slice(&plain).map(|(h, p)| (Val::IpHdrs(h, p.ip_number.0), p.payload.to_vec())).map_err(|e| format!("{:?}", e)))),
+        };
+        match r {
+            Err(p) => return cx.fail(ctx, entry, "panic", p),
+            Ok(Err(m)) => return cx.fail(ctx, entry, "rejects-own-encoding", format!("{} on {}", m, hex(&plain[..plain.len().min(96)]))),
+            Ok(Ok((dv, rest))) => {
+                same(&cx, ctx, entry, val, &dv, e, wr)?;
+                if rest != built.suffix {
+                    return cx.fail(ctx, entry, "rest!=trailing", format!("payload has {} bytes, the value announces {}", rest.len(), built.suffix.len()));
+                }
+            }
+        }
+    }
     match from_bytes(&k, e) {
         Some(Ok(dv)) => same(&cx, ctx, "from_bytes", val, &dv, e, wr)?,
         Some(Err(m)) => return cx.fail(ctx, "from_bytes", "rejects-own-encoding", m),
